@@ -113,6 +113,12 @@ def const_strs_feeding(prog, fn, op, du=None, depth=0, seen=None):
 def short(name):
     """drop crate/module prefix for messages: msi::internal::query::Insert::exec -> Insert::exec"""
     n = name
+    m = re.match(r"^(?:\w+::)?<(.+) as (.+)>::(\w+)(.*)$", n)
+    if m:
+        def last(x):
+            x = re.sub(r"<.*", "", x)
+            return x.rsplit("::", 1)[-1]
+        return "<%s as %s>::%s%s" % (last(m.group(1)), last(m.group(2)), m.group(3), m.group(4))
     for _ in range(4):
         n = re.sub(r"(::)?<[^<>]*>", "", n)
     parts = [x for x in n.split("::") if x]
